@@ -270,10 +270,16 @@ def run(tier):
     R.floor('pair instantiations', st['runs'], 1500)
     R.floor("stored values compared by normal form", st["compared"], 8000)
     R.extra.update(st)
+    # lazy q120 products: the two variants store different integer expressions of the same residues; their agreement is the
+    # congruence modulo each prime (engine of C10, path by path when a kernel branches on data)
+    from . import C10
+    ncg = C10.products(L, R, C10.primes(), tier, ells=[0, 1, 2, 3], rename={
+        'avx2-product-is-congruent-to-the-reference': 'pair-same-function-modulo-each-prime'})
+    R.floor('q120 product lanes compared modulo their prime', ncg, 100)
     from ..asm import load_models
     mods, info = load_models(L)
     R.extra['assembly_kernels'] = {k: {'accesses': v['accesses'], 'aligned_instructions': v['aligned'],
-                                       'arithmetic': 'not modelled (footprint only)'} for k, v in info.items()}
+                                       'arithmetic': 'lifted from the .s text (spqa.asmsem)'} for k, v in info.items()}
     for k, v in info.items():
         if v['aligned']:
             R.ob('asm-unaligned-access-only', k, 'refuted', detail='aligned move on a caller buffer: %s' % v['aligned'][0],
@@ -284,6 +290,6 @@ def run(tier):
     R.rules.append('evaluation = one (pair | dispatcher | module function, shape) double instantiation in value mode; obligation = '
                    '(clause, pair)')
     R.assumptions += ['floating-point kernels are compared as real polynomials: agreement up to rounding order, not bit equality',
-                      'values that pass through an assembly kernel or an uninterpreted conversion idiom are not comparable']
+                      'values that pass through an uninterpreted conversion idiom are not comparable; assembly kernels are compared through their lifted semantics']
     return R.finish('E1 dispatch instantiation + E3 footprints + E4 normal forms of stored expressions for every listed pair, every '
                     'public dispatcher and the AVX-capable module functions under both CPU configurations.')
